@@ -7,6 +7,88 @@ import PromVerif.Lemmas.RegistryDict
 namespace PromVerif.Model.Registry
 open PromVerif.Py PromVerif.Spec.Registry
 
+/-! ### the code has the reference shape
+
+`Model/Registry.lean` consults the decision structure extracted from registry.py (`Generated/Registry.lean`).  Each lemma
+below states that, with the flags as extracted, a model function IS its reference body; the flags enter by `decide`, so
+on a tree whose `register` / `set_target_info` / … has another (recognised) shape the lemma — and with it every theorem of
+C06/C07 about that function, all of which go through these lemmas — stops checking. -/
+
+open PromVerif.Generated.Registry in
+/-- all decision-structure flags have the reference value -/
+theorem registry_shape_ok :
+    registerChecksAllBeforeStore = true ∧ setTargetInfoStoresAfterCheck = true ∧
+    setTargetInfoClashNegatesPrevious = true ∧ setTargetInfoClashIsConjunction = true ∧
+    setTargetInfoClearsOnlyWhenPreviouslySet = true ∧ unregisterTakesRecordedNames = true ∧
+    unregisterDeletesEachName = true ∧ collectSnapshotsUnderLock = true ∧ collectTargetInfoFirst = true ∧
+    getNamesAutoDescribeFallback = true ∧ restrictedResolvesUnderLock = true ∧ restrictedCollectorsIsSet = true ∧
+    restrictedTargetInfoNeedsRequested = true ∧ restrictedTargetInfoNeedsConfigured = true ∧
+    restrictedFiltersAndDropsEmpty = true := by decide
+
+/-- `_get_names` chooses `describe`, else `collect` under auto-describe (T1 `getNamesAutoDescribeFallback`) -/
+theorem getNames_eq (ad : Bool) (c : Collector) :
+    getNames ad c = namesOfDescribed (described ad c) := by
+  have hf : PromVerif.Generated.Registry.getNamesAutoDescribeFallback = true := by decide
+  unfold getNames
+  simp only [hf, Bool.and_true]
+
+/-- `register` tests ALL names, raises before any store, then stores (T1 `registerChecksAllBeforeStore`) -/
+theorem register_eq (s : State) (c : Collector) : register s c = registerAtomic s c := by
+  have hf : PromVerif.Generated.Registry.registerChecksAllBeforeStore = true := by decide
+  simp only [register, hf, if_true]
+
+/-- `unregister` releases the names recorded for the collector (T1 `unregisterTakesRecordedNames`,
+`unregisterDeletesEachName`) -/
+theorem unregister_eq (s : State) (c : Collector) :
+    unregister s c = unregisterOf (dGet c s.collectorToNames) s c := by
+  have hf : PromVerif.Generated.Registry.unregisterTakesRecordedNames = true := by decide
+  have _hd : PromVerif.Generated.Registry.unregisterDeletesEachName = true := by decide
+  simp only [unregister, releasedNames, hf, if_true]
+
+/-- `set_target_info`: clash test `not previous and claimed`, raise BEFORE `_target_info` is assigned, pop only when
+target info was configured (T1 `setTargetInfoStoresAfterCheck`, `…ClashNegatesPrevious`, `…ClashIsConjunction`,
+`…ClearsOnlyWhenPreviouslySet`) -/
+theorem setTargetInfo_eq (s : State) (labels : Option Labels) :
+    setTargetInfo s labels =
+      if truthy labels then
+        if !truthy s.targetInfo && dHas tiName s.namesToCollectors then (s, some .valueError)
+        else ({ s with namesToCollectors := dSet tiName .empty s.namesToCollectors, targetInfo := labels }, none)
+      else if truthy s.targetInfo then
+        ({ s with namesToCollectors := dDel tiName s.namesToCollectors, targetInfo := labels }, none)
+      else ({ s with targetInfo := labels }, none) := by
+  have h1 : PromVerif.Generated.Registry.setTargetInfoStoresAfterCheck = true := by decide
+  have h2 : PromVerif.Generated.Registry.setTargetInfoClashNegatesPrevious = true := by decide
+  have h3 : PromVerif.Generated.Registry.setTargetInfoClashIsConjunction = true := by decide
+  have h4 : PromVerif.Generated.Registry.setTargetInfoClearsOnlyWhenPreviouslySet = true := by decide
+  simp only [setTargetInfo, setTargetInfoWith, tiClashTest, h1, h2, h3, h4, if_true, Bool.not_true, Bool.or_false]
+
+/-- `collect`: target info first, then the collectors in dict order (T1 `collectTargetInfoFirst`) -/
+theorem collect_eq (s : State) :
+    collect s = { families := tiFamily s.targetInfo ++ s.collectorToNames.flatMap (fun e => e.1.families)
+                  calls := s.collectorToNames.map (fun e => Owner.coll e.1) } := by
+  have hf : PromVerif.Generated.Registry.collectTargetInfoFirst = true := by decide
+  have _hl : PromVerif.Generated.Registry.collectSnapshotsUnderLock = true := by decide
+  simp only [collect, hf, if_true]
+
+/-- `RestrictedRegistry.collect` gathers the resolved collectors in a SET (T1 `restrictedCollectorsIsSet`) -/
+theorem collAdd_eq (o : Owner) (acc : List Owner) : collAdd o acc = setAdd o acc := by
+  have hf : PromVerif.Generated.Registry.restrictedCollectorsIsSet = true := by decide
+  simp only [collAdd, hf, if_true]
+
+/-- `RestrictedRegistry.collect`: target info only when requested AND configured (T1
+`restrictedTargetInfoNeedsRequested`, `…NeedsConfigured`), names resolved under the lock, every family through
+`_restricted_metric`, empty results dropped -/
+theorem restrictedCollect_eq (names : List Name) (s : State) :
+    restrictedCollect names s =
+      { families := (if decide (tiName ∈ names) && truthy s.targetInfo then tiFamily s.targetInfo else []) ++
+          (selectCollectors s.namesToCollectors names []).flatMap (fun o => o.families.filterMap (restrictedMetric names))
+        calls := selectCollectors s.namesToCollectors names [] } := by
+  have h1 : PromVerif.Generated.Registry.restrictedTargetInfoNeedsRequested = true := by decide
+  have h2 : PromVerif.Generated.Registry.restrictedTargetInfoNeedsConfigured = true := by decide
+  have _h3 : PromVerif.Generated.Registry.restrictedResolvesUnderLock = true := by decide
+  have _h4 : PromVerif.Generated.Registry.restrictedFiltersAndDropsEmpty = true := by decide
+  simp only [restrictedCollect, h1, h2, Bool.not_true, Bool.or_false]
+
 /-! ### `_get_names` records exactly the claims of the statement, each once -/
 
 theorem suffixesOf_eq (t : MType) : suffixesOf t = suffixes t := by
@@ -92,18 +174,19 @@ private theorem nodup_foldFamilies (ms : List (Name × MType)) : ∀ {r : List N
 
 /-- `_get_names` yields exactly the names the statement says the collector claims -/
 theorem mem_getNames_iff (ad : Bool) (c : Collector) (n : Name) : n ∈ getNames ad c ↔ n ∈ claims ad c := by
-  unfold getNames claims
+  rw [getNames_eq]
+  unfold claims
   cases described ad c with
-  | none => simp
+  | none => simp [namesOfDescribed]
   | some ms =>
-    simp only [mem_foldFamilies, List.not_mem_nil, false_or, List.mem_flatMap]
+    simp only [namesOfDescribed, mem_foldFamilies, List.not_mem_nil, false_or, List.mem_flatMap]
     constructor
     · rintro ⟨m, h1, h2⟩; exact ⟨m, h1, by rw [← familyNames_eq]; exact h2⟩
     · rintro ⟨m, h1, h2⟩; exact ⟨m, h1, by rw [familyNames_eq]; exact h2⟩
 
 /-- … each of them once -/
 theorem getNames_nodup (ad : Bool) (c : Collector) : (getNames ad c).Nodup := by
-  unfold getNames
+  rw [getNames_eq]
   cases described ad c with
   | none => exact List.nodup_nil
   | some ms => exact nodup_foldFamilies ms List.nodup_nil
@@ -165,14 +248,14 @@ def clashes (s : State) (c : Collector) : Bool :=
 
 theorem register_raise {s : State} {c : Collector} (h : clashes s c = true) :
     register s c = (s, some .valueError) := by
-  unfold register
+  rw [register_eq]; unfold registerAtomic
   simp only [clashes] at h
   simp [h]
 
 theorem register_ok {s : State} {c : Collector} (h : clashes s c = false) :
     register s c = ({ s with namesToCollectors := setAll (.coll c) (getNames s.autoDescribe c) s.namesToCollectors
                              collectorToNames := dSet c (getNames s.autoDescribe c) s.collectorToNames }, none) := by
-  unfold register
+  rw [register_eq]; unfold registerAtomic
   simp only [clashes] at h
   simp [h]
 
@@ -259,17 +342,17 @@ theorem delNames_all {names : List Name} (hn : names.Nodup) :
 
 theorem unregister_unknown {s : State} {c : Collector} (h : c ∉ s.collectorToNames.map Prod.fst) :
     unregister s c = (s, some .keyError) := by
-  unfold unregister
-  rw [(dGet_none_iff c _).2 h]
+  rw [unregister_eq]
+  rw [(dGet_none_iff c _).2 h]; rfl
 
 /-- a registered collector with duplicate-free recorded names is removed completely -/
 theorem unregister_ok {s : State} (hi : Inv s) {c : Collector} {names : List Name}
     (hm : (c, names) ∈ s.collectorToNames) (hnd : names.Nodup) :
     unregister s c = ({ s with namesToCollectors := s.namesToCollectors.filter (fun p => decide (p.1 ∉ names))
                                collectorToNames := dDel c s.collectorToNames }, none) := by
-  unfold unregister
+  rw [unregister_eq]
   rw [dGet_of_mem hi.c2nNodup hm]
-  simp only
+  simp only [unregisterOf]
   rw [delNames_all hnd]
   intro n hn
   have : (n, Owner.coll c) ∈ s.namesToCollectors := (hi.graph n _).2 (Or.inl ⟨c, names, rfl, hm, hn⟩)
@@ -325,7 +408,7 @@ theorem inv_unregister {s : State} (hi : Inv s) (c : Collector) : Inv (unregiste
 
 theorem inv_setTargetInfo {s : State} (hi : Inv s) (labels : Option Labels) :
     Inv (setTargetInfo s labels).1 := by
-  unfold setTargetInfo
+  rw [setTargetInfo_eq]
   by_cases hl : truthy labels = true
   · simp only [hl, if_true]
     by_cases hc : (!truthy s.targetInfo && dHas tiName s.namesToCollectors) = true
